@@ -124,14 +124,17 @@ func orderAgreementRule(P *Program, R *Report) {
 	// verifier: sorted indices, proofs in slice order (same facts as C12.a)
 	if fn := mustFunc(P, R, rule, kProofDCC); fn != nil {
 		sorted := false
+		outer := loopOver(fn, is("makeslice"))
 		for _, c := range callsIn(fn) {
-			if isCallTo(c, "sort.Ints") {
+			if isCallTo(c, "sort.Ints") && outer != nil {
 				if seq, ok := seqOf(c.Common().Args[0]); ok && seqString(seq) == "[(rangekey("+pdRP+"))*]" {
-					sorted = true
+					// the sort is executed on every path into the loop
+					call := c
+					r := (&MustPass{P: P, NoInterproc: true, Instr: func(_ *ssa.Function, i ssa.Instruction) bool { return i == ssa.Instruction(call.(*ssa.Call)) }}).MustReach(fn, outer.Header.Instrs[0])
+					sorted = r.Holds
 				}
 			}
 		}
-		outer := loopOver(fn, is("makeslice"))
 		inner := loopOver(fn, is(pdRP+"[makeslice[#i]]"))
 		var cfp *ssa.Call
 		for _, c := range callsIn(fn) {
